@@ -28,7 +28,7 @@ def handle (toks : List String) (impl : Option String) : Option (String × Strin
         else "bad:" ++ a.replace " " "_"
       | ["rt.any", arch, _src, target, _seed] =>
         if a == "same" || a.startsWith "exc-save:" then "ok"
-        else if arch == "csv" && (target == "rows" || target == "vchrono") && a.startsWith "exc-load:parsing" &&
+        else if arch == "csv" && (target == "rows" || target == "vchrono" || target == "vshape") && a.startsWith "exc-load:parsing" &&
             (match a.splitOn " " with | [_, saved, v] => (saved == "-" || saved == "efbbbf") && v == "[]" | _ => false) then
           "known:csv-empty-array-unloadable"
         else "bad:" ++ ((a.splitOn " ").headD "?")
